@@ -28,9 +28,10 @@ const (
 	DefaultMaxDuration = 10 * time.Second
 	// MaxDepth only counts function calls (Eval); nested expressions, literals and arguments recurse in Go
 	// without counting, so the Go stack used per depth level is not bounded. MaxNesting bounds that recursion itself:
-	// a nested evaluation uses ~2.3KB of stack at most, this keeps the total under the 1GB Go limit
-	// (and examples/pi2.gr which nests 300k deep working).
-	MaxNesting = 400_000
+	// Go stacks double in size so the usable stack under the 1GB limit is 512MiB; a nested evaluation uses
+	// up to ~1.5KB of it (function calls: 2 nestings plus applyFunction and Eval), this keeps the total under
+	// that (and examples/pi2.gr, which nests 300k deep, working).
+	MaxNesting = 330_000
 )
 
 type State struct {
